@@ -395,6 +395,13 @@ func (opts *Options) flagSet() {
 	}
 
 	flag.Parse()
+
+	// vflow takes no positional arguments: package flag stops at the first word that is neither a
+	// flag nor the value of one (a boolean written "-key value") and ignores the rest of the command line
+	if flag.NArg() > 0 {
+		fmt.Fprintf(os.Stderr, "unexpected argument %q (a boolean option is written -key or -key=value)\n", flag.Arg(0))
+		os.Exit(2)
+	}
 }
 
 func (opts *Options) loadCfg() {
